@@ -633,7 +633,7 @@ def execute(case, report):
         d = frame_diff(before, root, len(desc["series"]))
         if d:
             msg, where = d
-            where = "/".join(where.split("/")[-3:])
+            where = "/".join(where.split("/")[-2:])      # element + parent: one key per kind of damage
             grow = "grow" if len(desc["series"]) > n_old else "shrink" if len(desc["series"]) < n_old else "same"
             report("C07:replace:frame:%s:at=%s" % (grow, where),
                    "replace_data (%d -> %d series) changed chart content it must leave alone: %s"
